@@ -79,6 +79,9 @@ private:
 	// true while the host name of the origin server is being resolved
 	bool m_resolving;
 
+	// set while the connection to the origin is being established
+	bool m_connecting;
+
 	// receive buffer for requests from the client. i.e. client -> proxy (us) -> server
 	char m_client_in_buffer[65536];
 	// buffer size
